@@ -38,8 +38,9 @@ Notification points and their order (checked against the source):
   `on_waiting` (**waiting**) / …; then `on_terminated`;
 * `on_paused` (**paused**) after `_pausing = None; _paused = Future()`; `_do_pause`'s `finally: _pausing = None`;
 * `on_playing` (**played**) after `_paused = None`.
-A request from the exiting / entering phase is issued only while `_stepping` (as in the harness): outside a step
-`pause()/kill()` would start a transition inside a transition, which the state machine documents as unsupported.
+A request from the exiting / entering phase is issued only in the closing part of a step (`_stepping` and no longer `_executing`; the
+harness: only from inside the stepping task's own callback): outside a step `pause()/kill()` would start a transition inside a
+transition, which the state machine documents as unsupported.
 -/
 namespace PMF
 namespace L
@@ -88,7 +89,7 @@ def logIssued (l : LCfg) (h : Hook) (r : Req) : LCfg :=
 def fireK (R : Req → LCfg → LCfg) (h : Hook) (l : LCfg) : LCfg :=
   let n := l.cnt h + 1
   let l := { l with cnt := bump l.cnt h }
-  if hookPhase h && !l.c.stepping then l else
+  if hookPhase h && !(l.c.stepping && !l.executing) then l else
   match l.plan.find? (fun e => e.1 = h && e.2.1 = n) with
   | none => l
   | some e => R e.2.2 (logIssued { l with plan := l.plan.erase e } h e.2.2)
